@@ -44,7 +44,7 @@ def run(ctx):
                 cases.append((len(cases), sc, cl))
         if not ctx.thorough:
             cases = [c for c in cases if (c[0] // 9) % 3 == 0 or (c[0] % 9) in ((c[0] // 9) % 9, (c[0] // 9 + 4) % 9)]
-        caplists = g["caplists"] + [[96], [96, 96], [24, 24, 24, 24], [7, 13], [50, 1, 50], [1, 1, 1], [200]]
+        caplists = g["caplists"] + [[96], [96, 96], [24, 24, 24, 24], [7, 13], [50, 1, 50], [1, 1, 1], [200], [], []]
         for _ in range(60000 if ctx.thorough else 8000):
             sc = random_score(ctx.rng, 10 if ctx.rng.random() < .5 else 4, ctx.rng.choice([20, 60, 200]))
             cl = ctx.rng.choice(caplists)
